@@ -44,9 +44,13 @@ INTERACT = ["a:x", "a:scale(x)", "a:bs(x, df=3)", "a:g", "C(a, contr.sum):poly(x
             "scale(x):center(z)", "bs(x, df=3):a - 1", "a:g:x", "g:cr(x, df=3)", "k:scale(z)", "a + g + a:g",
             "a*g*scale(x)", "C(a, contr.helmert):C(g, contr.sum)", "poly(x, 2):poly(w, 2)", "a:cc(x, df=3) - 1",
             "scale(x):scale(x, ddof=0)"]
+QUOTED_AND_SHARED = ['bs(x, df=4, extrapolation="clip")', 'C(a, contr.treatment("q"))', 'cr(x, df=4, constraints="center")',
+                     "scale(x) + scale(x):a", "scale(x) + scale(x, ddof=0) + center(x)", "center(bs(x, df=3))",
+                     "scale(cr(x, df=3))", "bs(x, df=3) + bs(w, df=3) + bs(x, df=4)", "C(a) + C(a, contr.sum):x",
+                     "poly(x, 2) + poly(x, 3)", "a + C(a, contr.helmert):g"]
 TWO_SIDED = ["z ~ a + scale(x)", "center(z) ~ bs(x, df=3) + g", "scale(w) + center(z) ~ C(a, contr.sum):x"]
 FAMILIES = {"stateless": STATELESS, "scaling": SCALING, "poly": POLY, "bs": BS, "cubic": CUBIC, "categorical": CATEG,
-            "interaction": INTERACT, "two-sided": TWO_SIDED}
+            "interaction": INTERACT, "quoted-or-shared-state": QUOTED_AND_SHARED, "two-sided": TWO_SIDED}
 SINGLE_TERMS = STATELESS + SCALING + POLY + BS + CUBIC + CATEG  # building blocks of the random sums
 
 
@@ -158,7 +162,8 @@ if {pickled!r}:
 history = {history!r}          # follow-ups applied one after the other on the same spec object
 for step, (kind, idx, keep_index, prune) in enumerate(history):
     new = frame(cols, idx, keep_index, prune)
-    m2 = model_matrix(spec, new, context={{}}) if {via!r} == "model_matrix" else spec.get_model_matrix(new)
+    m2 = (model_matrix(spec, new, context={{}}) if {via!r} == "model_matrix" else
+          model_matrix(mm, new, context={{}}) if {via!r} == "model_matrix(mm)" else spec.get_model_matrix(new))
     if step != len(history) - 1:
         continue               # only the last follow-up of the history is asserted here
     got_names = [list(p.model_spec.column_names) for p in parts(m2)]
@@ -269,9 +274,9 @@ def _worker(jobs):
             histories.append([rng.choice(fus), fus[0]])  # ... and the original frame again at the end
             for hi, history in enumerate(histories):
                 for via, pickled in (("spec.get_model_matrix", False), ("model_matrix", False),
-                                     ("spec.get_model_matrix", True)):
-                    if len(history) > 1 and via == "model_matrix":
-                        continue
+                                     ("spec.get_model_matrix", True), ("model_matrix(mm)", False)):
+                    if via.startswith("model_matrix") and (len(history) > 1 or (hi % 3 != job["route_phase"] and not job["all_routes"])):
+                        continue  # the two model_matrix(...) entry points: single follow-ups; quick tier: every third one
                     spec = mm.model_spec
                     try:
                         if pickled:
@@ -304,6 +309,7 @@ def _worker(jobs):
 
                         try:
                             m2 = (model_matrix(spec, new, context={}) if via == "model_matrix"
+                                  else model_matrix(mm, new, context={}) if via == "model_matrix(mm)"
                                   else spec.get_model_matrix(new))
                         except Exception as e:  # noqa: BLE001 - outcome to be judged: replay on training rows may not fail
                             res.fail(rows_clause, f"raises-{type(e).__name__}:{kind_cls}:{fam}:{route_cls}", wit(rows_clause),
@@ -384,7 +390,8 @@ def _jobs(rng, thorough):
                 cols = make_train(random.Random(rng.random()), rng.choice([9, 12, 20, 33]), storage_variant=t)
                 for output in outputs:
                     jobs.append({"formula": formula, "cols": cols, "output": output, "seed": rng.randrange(10**9),
-                                 "family": fam, "n_histories": 4 if thorough else 1})
+                                 "family": fam, "n_histories": 4 if thorough else 1, "all_routes": thorough,
+                                 "route_phase": len(jobs) % 3})
     # random sums of 2-3 templates, with / without intercept
     for i in range(600 if thorough else 40):
         terms = rng.sample(SINGLE_TERMS + INTERACT, rng.randint(2, 3))
@@ -392,7 +399,8 @@ def _jobs(rng, thorough):
         formula = " + ".join(terms) + rng.choice(["", "", " - 1", " + 0"])
         cols = make_train(random.Random(rng.random()), rng.choice([10, 16, 25, 40]), storage_variant=i)
         jobs.append({"formula": formula, "cols": cols, "output": rng.choice(outputs), "seed": rng.randrange(10**9),
-                     "family": "sum", "n_histories": 3 if thorough else 2})
+                     "family": "sum", "n_histories": 3 if thorough else 2, "all_routes": thorough,
+                     "route_phase": i % 3})
     return jobs
 
 
@@ -415,7 +423,7 @@ def run_bounded(ctx):
         rule="formula x training frame x output x history: follow-ups {original, subset, duplication, permutation, "
              "shuffled sample with repeats, single row, frame lacking one level of a (categories pruned), frame with one "
              "level of a and g, subset with unused categories, subset keeping the original index}, each alone via "
-             "spec.get_model_matrix / model_matrix(spec, .) / pickled spec, plus sequences of 2-4 follow-ups on one spec "
+             "spec.get_model_matrix / model_matrix(spec, .) / model_matrix(matrix, .) / pickled spec, plus sequences of 2-4 follow-ups on one spec "
              "object and the original frame again afterwards; plus 5..15 new rows drawn from the training domain, "
              "materialized at once and as 3 selections (row-locality on unseen rows); distinct = (formula, output, training seed, route, history "
              "prefix with row indices); non-trivial iff the training materialization succeeded",
